@@ -21,7 +21,11 @@ import (
 	"time"
 
 	"github.com/janelia-flyem/dvid/datatype/common/labels"
+	"github.com/janelia-flyem/dvid/datatype/common/proto"
 	"github.com/janelia-flyem/dvid/dvid"
+	"github.com/janelia-flyem/dvid/storage"
+	_ "github.com/janelia-flyem/dvid/storage/filelog"
+	pb "google.golang.org/protobuf/proto"
 
 	"verif/harness/dvh"
 	"verif/harness/lib"
@@ -43,6 +47,9 @@ type hop struct {
 	N       uint64   `json:"n,omitempty"`
 	Kill    bool     `json:"kill,omitempty"` // restart: SIGKILL instead of a clean quit
 	Replace bool     `json:"replace,omitempty"`
+	// mappings: one MappingOp per entry, [mapped, original...]; an EMPTY entry is the all-default
+	// MappingOp, whose protobuf serialisation (and hence its mutation-log record) has zero bytes
+	Maps [][]uint64 `json:"maps,omitempty"`
 }
 
 type jcase struct {
@@ -79,6 +86,7 @@ type state struct {
 	root    string
 	vuuid   map[int]string
 	keys    map[string]bool
+	njKeys  map[string]bool
 	lmLabel map[uint64]bool // labels / supervoxels ever seen
 	blocks  int
 	blockOf map[uint64]int // solid block index of an ingested label
@@ -181,7 +189,36 @@ func (s *state) exec(o hop) {
 	case "del":
 		p.HTTP("DELETE", "/api/node/"+u+"/"+s.n("kv")+"/key/"+o.Key, nil)
 	case "njput":
-		p.Post("/api/node/"+u+"/"+s.n("nj")+"/key/"+o.Key, []byte(o.Val))
+		s.njKeys[o.Key] = true
+		// neuronjson refuses writes without a user
+		url := "/api/node/" + u + "/" + s.n("nj") + "/key/" + o.Key + "?u=tester"
+		if o.Replace {
+			url += "&replace=true"
+		}
+		if st, b, _ := p.Post(url, []byte(o.Val)); st != 200 && !strings.Contains(string(b), "locked") {
+			fatal("neuronjson POST %s: %d %s", url, st, b)
+		}
+	case "njdel":
+		p.HTTP("DELETE", "/api/node/"+u+"/"+s.n("nj")+"/key/"+o.Key+"?u=tester", nil)
+	case "mappings":
+		ops := &proto.MappingOps{}
+		for _, m := range o.Maps {
+			op := &proto.MappingOp{}
+			if len(m) > 0 {
+				op.Mapped = m[0]
+				op.Original = m[1:]
+				op.Mutid = uint64(len(ops.Mappings) + 1)
+				for _, l := range m {
+					s.lmLabel[l] = true
+				}
+			}
+			ops.Mappings = append(ops.Mappings, op)
+		}
+		ser, err := pb.Marshal(ops)
+		if err != nil {
+			fatal("marshal mappings: %v", err)
+		}
+		p.Post("/api/node/"+u+"/"+s.n("lm")+"/mappings", ser)
 	case "annput":
 		p.Post("/api/node/"+u+"/"+s.n("ann")+"/elements", []byte(o.Val))
 	case "ingest":
@@ -319,8 +356,24 @@ func sortedArray(v string) string {
 	return v[:i+1] + string(b)
 }
 
+// a JSON array of strings that is a set: compare sorted
+func sortedStrings(v string) string {
+	i := strings.Index(v, ":")
+	var xs []string
+	if i < 0 || json.Unmarshal([]byte(v[i+1:]), &xs) != nil {
+		return v
+	}
+	sort.Strings(xs)
+	b, _ := json.Marshal(xs)
+	return v[:i+1] + string(b)
+}
+
 func (s *state) get(url string) string {
 	st, b, _ := s.p.Get(url)
+	if st >= 400 {
+		// error texts are not compared (they list versions / keys in map-iteration order), the refusal is
+		return fmt.Sprintf("%d:", st)
+	}
 	return fmt.Sprintf("%d:%s", st, b)
 }
 
@@ -333,6 +386,9 @@ func (s *state) getJinfo(url string) string {
 // getJ: like get, for JSON answers (empty list/map and null are not told apart)
 func (s *state) getJ(url string) string {
 	st, b, _ := s.p.Get(url)
+	if st >= 400 {
+		return fmt.Sprintf("%d:", st)
+	}
 	return fmt.Sprintf("%d:%s", st, canonJSON(b))
 }
 
@@ -391,6 +447,11 @@ func (s *state) snapshot() []probe {
 		keys = append(keys, k)
 	}
 	sort.Strings(keys)
+	var njk []string
+	for k := range s.njKeys {
+		njk = append(njk, k)
+	}
+	sort.Strings(njk)
 	var lbls []uint64
 	for l := range s.lmLabel {
 		lbls = append(lbls, l)
@@ -408,6 +469,10 @@ func (s *state) snapshot() []probe {
 		}
 		add("nj-all", vk, s.getJ("/api/node/"+u+"/"+s.n("nj")+"/all"))
 		add("nj-keys", vk, s.getJ("/api/node/"+u+"/"+s.n("nj")+"/keys"))
+		add("nj-fields", vk, sortedStrings(s.get("/api/node/"+u+"/"+s.n("nj")+"/fields")))
+		for _, k := range njk {
+			add("nj-key", vk+"/"+k, s.getJ("/api/node/"+u+"/"+s.n("nj")+"/key/"+k))
+		}
 		add("ann-all", vk, s.getJ("/api/node/"+u+"/"+s.n("ann")+"/all-elements"))
 		if s.haveLM {
 			add("lm-maxlabel", vk, s.get("/api/node/"+u+"/"+s.n("lm")+"/maxlabel"))
@@ -595,7 +660,7 @@ func execHistory(c jcase) (ex execution) {
 	if err != nil {
 		fatal("child: %v", err)
 	}
-	s := &state{p: p, dir: dir, vuuid: map[int]string{}, keys: map[string]bool{"ver": true}, lmLabel: map[uint64]bool{}, blockOf: map[uint64]int{}, mapops: map[int][]string{}, mapsegs: map[int][]string{}}
+	s := &state{p: p, dir: dir, vuuid: map[int]string{}, keys: map[string]bool{"ver": true}, njKeys: map[string]bool{}, lmLabel: map[uint64]bool{}, blockOf: map[uint64]int{}, mapops: map[int][]string{}, mapsegs: map[int][]string{}}
 	p.PostJSON("/api/repos", map[string]string{"alias": "r1"})
 	s.refresh()
 	branchNo := map[string]int{"": 0}
@@ -829,6 +894,80 @@ func execHistory(c jcase) (ex execution) {
 	return
 }
 
+// ---- the append-only log on its own: what was appended is what a re-opened engine reads ----
+func runLogRoundTrip(run *lib.Run, rng *lib.Rand, name string, recs []storage.LogMessage) {
+	dir, _ := os.MkdirTemp("", "c03log")
+	defer os.RemoveAll(dir)
+	open := func() dvid.Store {
+		var c dvid.Config
+		c.SetAll(map[string]interface{}{"path": dir})
+		st, _, err := storage.GetEngine("filelog").NewStore(dvid.StoreConfig{Config: c, Engine: "filelog"})
+		if err != nil {
+			fatal("filelog: %v", err)
+		}
+		return st
+	}
+	dataID, version := dvid.UUID("00000000000000000000000000000001"), dvid.UUID("00000000000000000000000000000002")
+	st := open()
+	for _, r := range recs {
+		if err := st.(storage.WriteLog).Append(dataID, version, r); err != nil {
+			fatal("append: %v", err)
+		}
+	}
+	st.Close()
+	same := func(got []storage.LogMessage) bool {
+		if len(got) != len(recs) {
+			return false
+		}
+		for i := range got {
+			if got[i].EntryType != recs[i].EntryType || !bytes.Equal(got[i].Data, recs[i].Data) {
+				return false
+			}
+		}
+		return true
+	}
+	st = open()
+	ra, _ := st.(storage.ReadLog).ReadAll(dataID, version)
+	st.Close()
+	st = open()
+	ch := make(chan storage.LogMessage, 16)
+	var sa []storage.LogMessage
+	done := make(chan struct{})
+	go func() {
+		for m := range ch {
+			sa = append(sa, storage.LogMessage{EntryType: m.EntryType, Data: append([]byte{}, m.Data...)})
+		}
+		close(done)
+	}()
+	st.(storage.ReadLog).StreamAll(dataID, version, ch)
+	<-done
+	st.Close()
+	var sizes []string
+	empties := 0
+	for _, r := range recs {
+		sizes = append(sizes, fmt.Sprint(len(r.Data)))
+		if len(r.Data) == 0 {
+			empties++
+		}
+	}
+	run.Dist["log-records"] += len(recs)
+	run.Dist["log-empty-records"] += empties
+	run.Add("log-roundtrip", fmt.Sprintf("(CLogRT %d%%nat %d%%nat %d%%nat %s %s)", len(recs), len(ra), len(sa), lib.CoqBool(same(ra)), lib.CoqBool(same(sa))),
+		jcase{Kind: "logrt", Name: name + ":" + strings.Join(sizes, ",")}, "logrt/"+strings.Join(sizes, ","))
+}
+
+func genLogRoundTrips(run *lib.Run, rng *lib.Rand, n int) {
+	runLogRoundTrip(run, rng, "corpus", []storage.LogMessage{{EntryType: 1, Data: nil}, {EntryType: 1, Data: []byte{8, 5}}, {EntryType: 2, Data: []byte{}}, {EntryType: 0, Data: nil}, {EntryType: 3, Data: []byte{1, 2, 3}}})
+	for i := 0; i < n; i++ {
+		var recs []storage.LogMessage
+		for j := 0; j < 1+rng.Intn(8); j++ {
+			sz := rng.Pick(0, 0, 1, 2, 6, rng.Intn(40))
+			recs = append(recs, storage.LogMessage{EntryType: uint16(rng.Pick(0, 1, 2, 3, 65535)), Data: rng.Bytes(sz)})
+		}
+		runLogRoundTrip(run, rng, fmt.Sprintf("random-%d", i), recs)
+	}
+}
+
 func corpus() []jcase {
 	return []jcase{
 		{Kind: "history", Name: "kv-branches", Ops: []hop{
@@ -838,6 +977,30 @@ func corpus() []jcase {
 			{Op: "njput", V: 2, Key: "10", Val: `{"bodyid":10,"status":"x"}`},
 			{Op: "annput", V: 2, Val: `[{"Pos":[1,2,3],"Kind":"Note","Tags":["t"],"Prop":{}}]`},
 			{Op: "restart"}, {Op: "commit", V: 2}, {Op: "newversion", V: 2}, {Op: "put", V: 4, Key: "c", Val: "4"}, {Op: "restart", Kill: true}}},
+		// degenerate but legal values of every data type, written before the restart
+		{Kind: "history", Name: "degenerate-values", Ops: []hop{
+			{Op: "put", V: 1, Key: "empty", Val: ""}, {Op: "njput", V: 1, Key: "20", Val: `{"bodyid":20}`},
+			{Op: "njput", V: 1, Key: "21", Val: `{"bodyid":21,"f":"x"}`}, {Op: "njput", V: 1, Key: "21", Val: `{"bodyid":21}`, Replace: true},
+			{Op: "njput", V: 1, Key: "22", Val: `{"bodyid":22,"f":null}`},
+			{Op: "annput", V: 1, Val: `[{"Pos":[0,0,0],"Kind":"Unknown"}]`}, {Op: "annput", V: 1, Val: `[]`},
+			{Op: "mappings", V: 1, Maps: [][]uint64{}}, {Op: "note", V: 1, Val: ""},
+			{Op: "restart"}, {Op: "commit", V: 1}, {Op: "newversion", V: 1},
+			{Op: "njput", V: 2, Key: "23", Val: `{"bodyid":23}`}, {Op: "njdel", V: 2, Key: "20"}, {Op: "put", V: 2, Key: "empty", Val: ""},
+			{Op: "restart", Kill: true}, {Op: "restart"}}},
+		// mapping batches that contain the all-default MappingOp (a zero-byte log record) between others
+		{Kind: "history", Name: "mappings-empty-record", Ops: []hop{
+			{Op: "ingest", V: 1, Labels: []uint64{1, 2, 3, 4}},
+			{Op: "mappings", V: 1, Maps: [][]uint64{{}, {10, 1, 2}}}, {Op: "restart"},
+			{Op: "commit", V: 1}, {Op: "newversion", V: 1},
+			{Op: "mappings", V: 2, Maps: [][]uint64{{20, 3}, {}, {20, 4}, {}}}, {Op: "mappings", V: 2, Maps: [][]uint64{{30, 1}}},
+			{Op: "restart", Kill: true}, {Op: "restart"}}},
+		// merges whose parents are listed in every order (parents[0] is the lineage), restarted twice
+		{Kind: "history", Name: "merge-orders", Ops: []hop{
+			{Op: "commit", V: 1}, {Op: "newversion", V: 1}, {Op: "branch", V: 1, Branch: "b1"}, {Op: "branch", V: 1, Branch: "b2"},
+			{Op: "put", V: 2, Key: "m", Val: "two"}, {Op: "put", V: 3, Key: "m", Val: "three"}, {Op: "put", V: 4, Key: "n", Val: "four"},
+			{Op: "commit", V: 2}, {Op: "commit", V: 3}, {Op: "commit", V: 4},
+			{Op: "merge", Parents: []int{4, 2}}, {Op: "restart"}, {Op: "restart", Kill: true},
+			{Op: "commit", V: 5}, {Op: "merge", Parents: []int{5, 3, 1}}, {Op: "merge", Parents: []int{3, 4, 2}}, {Op: "restart"}, {Op: "restart"}}},
 		{Kind: "history", Name: "merge-heads", Ops: []hop{
 			{Op: "commit", V: 1}, {Op: "newversion", V: 1}, {Op: "branch", V: 1, Branch: "b1"},
 			{Op: "commit", V: 2}, {Op: "commit", V: 3}, {Op: "merge", Parents: []int{2, 3}}, {Op: "restart"}}},
@@ -878,7 +1041,7 @@ func randomHistory(rng *lib.Rand, i int) jcase {
 		fatal("generator child: %v", err)
 	}
 	defer p.Quit()
-	s := &state{p: p, vuuid: map[int]string{}, keys: map[string]bool{}, lmLabel: map[uint64]bool{}, blockOf: map[uint64]int{}, mapops: map[int][]string{}, mapsegs: map[int][]string{}}
+	s := &state{p: p, vuuid: map[int]string{}, keys: map[string]bool{}, njKeys: map[string]bool{}, lmLabel: map[uint64]bool{}, blockOf: map[uint64]int{}, mapops: map[int][]string{}, mapsegs: map[int][]string{}}
 	p.PostJSON("/api/repos", map[string]string{"alias": "r1"})
 	s.refresh()
 	for _, d := range [][2]string{{"keyvalue", "kv"}, {"labelmap", "lm"}, {"neuronjson", "nj"}, {"annotation", "ann"}} {
@@ -910,7 +1073,11 @@ func randomHistory(rng *lib.Rand, i int) jcase {
 		switch rng.Intn(16) {
 		case 0, 1:
 			if !n.Locked {
-				do(hop{Op: "put", V: n.VersionID, Key: fmt.Sprintf("k%d", rng.Intn(3)), Val: fmt.Sprintf("x%d", k)})
+				val := fmt.Sprintf("x%d", k)
+				if rng.Chance(0.2) {
+					val = "" // an empty value is a value
+				}
+				do(hop{Op: "put", V: n.VersionID, Key: fmt.Sprintf("k%d", rng.Intn(3)), Val: val})
 			}
 		case 2:
 			if !n.Locked {
@@ -931,16 +1098,35 @@ func randomHistory(rng *lib.Rand, i int) jcase {
 				}
 			}
 			if n.Locked && len(cands) > 0 {
-				do(hop{Op: "merge", Parents: []int{n.VersionID, cands[rng.Intn(len(cands))]}})
+				// parents in any order (the first one is the lineage), two or three of them
+				ps := []int{n.VersionID, cands[rng.Intn(len(cands))]}
+				if len(cands) > 1 && rng.Chance(0.4) {
+					if c3 := cands[rng.Intn(len(cands))]; c3 != ps[1] {
+						ps = append(ps, c3)
+					}
+				}
+				for i := len(ps) - 1; i > 0; i-- {
+					j := rng.Intn(i + 1)
+					ps[i], ps[j] = ps[j], ps[i]
+				}
+				do(hop{Op: "merge", Parents: ps})
 			}
 		case 8:
 			if !n.Locked {
-				do(hop{Op: "njput", V: n.VersionID, Key: fmt.Sprint(100 + rng.Intn(3)), Val: fmt.Sprintf(`{"bodyid":%d,"f":"v%d"}`, 100+rng.Intn(3), k)})
+				id := 100 + rng.Intn(3)
+				switch rng.Intn(4) {
+				case 0: // nothing but the body id
+					do(hop{Op: "njput", V: n.VersionID, Key: fmt.Sprint(id), Val: fmt.Sprintf(`{"bodyid":%d}`, id), Replace: rng.Bool()})
+				case 1:
+					do(hop{Op: "njdel", V: n.VersionID, Key: fmt.Sprint(id)})
+				default:
+					do(hop{Op: "njput", V: n.VersionID, Key: fmt.Sprint(id), Val: fmt.Sprintf(`{"bodyid":%d,"f":"v%d"}`, id, k)})
+				}
 			}
 		case 9, 10, 11:
 			// label mutations at ANY open version (records in several versions of a path)
 			if !n.Locked && len(bodies) >= 2 {
-				switch rng.Intn(5) {
+				switch rng.Intn(7) {
 				case 0, 1:
 					a, b := rng.Intn(len(bodies)), rng.Intn(len(bodies))
 					if a != b {
@@ -950,6 +1136,17 @@ func randomHistory(rng *lib.Rand, i int) jcase {
 					do(hop{Op: "splitsv", V: n.VersionID, N: ls[rng.Intn(len(ls))]})
 				case 3:
 					do(hop{Op: "cleave", V: n.VersionID, N: bodies[rng.Intn(len(bodies))], Labels: []uint64{ls[rng.Intn(len(ls))]}})
+				case 4:
+					// a mapping batch; some of its operations are the all-default one (zero-byte record)
+					var maps [][]uint64
+					for j := 0; j < 1+rng.Intn(4); j++ {
+						if rng.Chance(0.35) {
+							maps = append(maps, []uint64{})
+						} else {
+							maps = append(maps, []uint64{uint64(100 + rng.Intn(5)), ls[rng.Intn(len(ls))]})
+						}
+					}
+					do(hop{Op: "mappings", V: n.VersionID, Maps: maps})
 				default:
 					do(hop{Op: "nextlabel", V: n.VersionID, N: uint64(1 + rng.Intn(3))})
 				}
@@ -1016,6 +1213,7 @@ func main() {
 	for i := 0; i < n; i++ {
 		runHistory(run, randomHistory(rng, i))
 	}
+	genLogRoundTrips(run, rng, 3*n)
 	run.Finish("c03case",
 		"histories over repo operations, keyvalue, labelmap (ingest, merge, cleave, supervoxel split, nextlabel), neuronjson and annotation writes with 1-3 restarts (clean quit or SIGKILL while idle); every GET of every instance at every version + repo info compared before/after a new process; distinct by (check kind, history, restart ordinal)",
 		tail)
